@@ -27,7 +27,7 @@ def parse_ace_extended(line: str) -> DStr:  # pylint: disable=too-many-locals
     text = r"\S+"
     addr = "|".join(
         [
-            "any",  # "any"
+            r"any(?![\w.-])",  # "any" (a whole word: group names may start with it)
             f"host {h.OCTETS}",  # "host A.B.C.D"
             f"(?:object-group|addrgroup) {text}",  # ios: "object-group", nxos: "addrgroup"
             h.OCTETS + r"/\d+",  # "A.B.C.D/LEN"
